@@ -9,6 +9,9 @@ CHECKS = {
  "C15": (E2, "runtime monitoring: grid workload (Accept x designed type x pre-set header x value) against the real encoders/decoders; oracle = stdlib format detection + round trip + literal fallback rules",
          "Samples (quick) or enumerates (thorough, exhaustive over the enumerated literals) the response grid and the request grid; every cell is executed against the real goahttp encoder/decoder pair and judged by an oracle that shares no code with goa.",
          "Trusts stdlib json/xml/gob and the monitor's own Content-Type tokenizer; value kinds limited to the enumerated literals."),
+ "C16": (E2, "runtime monitoring: generated unambiguous pattern sets mounted on the real Muxer, requests over recorder and real sockets, handler/middleware-side recording of Vars/ResolvePattern, reference matcher + identity-on-values oracle, table-snapshot hook invariant",
+         "Pattern sets unambiguous by construction are mounted on goahttp.NewMuxer(); URLs built by substituting escaped hostile values are sent through httptest recorder and a real httptest.Server; handlers and Use()d middlewares record what they saw; 404 bodies are decoded in the negotiated type.",
+         "Trusts net/http URL parsing and chi's precedence inside unambiguous sets; dot segments and empty single-segment values excluded (cleaned by net/http/chi); Use after first Handle panics in chi and is not judged."),
  "C18": (E2, "runtime monitoring: generated workloads against the real pkg/http/grpc error code, reference-model oracle over recorded results",
          "Every generated error sequence is merged under every parenthesisation with fresh originals and judged by an oracle computed from the case description; HTTP/gRPC status tables are enumerated exhaustively (8 flag combinations x names).",
          "Trusts the Go runtime, errors.Is/As, grpc status package. Message separator not asserted."),
